@@ -241,6 +241,31 @@ func H_snip() {
 	parseAndRun(src)
 }
 
+// H_trunc: every snippet cut off after each of its tokens (an editor saving a half-typed file, a
+// truncated upload), followed by a window of n symbolic bytes, and the same prefix nested inside
+// an open call / block / array so that the parser's "closing symbol expected" paths run at the
+// end of input.
+func H_trunc() {
+	n := symx.Param("n", 0)
+	lo, hi := symx.Param("lo", 0), symx.Param("hi", len(snippets))
+	k := lo + symx.Choose("snip", hi-lo)
+	base := snippets[k]
+	toks := lx.Tokenize(base)
+	var ends []int
+	for _, t := range toks {
+		if t.End() > t.Start() && t.End() <= len(base) {
+			ends = append(ends, t.End())
+		}
+	}
+	if len(ends) == 0 {
+		return
+	}
+	b := symx.Choose("tok", len(ends))
+	wrap := []string{"", "f(", "if ($c) { ", "$q = [", "try { ", "function g() { return "}[symx.Choose("wrap", 6)]
+	src := wrap + base[:ends[b]] + symx.String("w", n)
+	parseAndRun(src)
+}
+
 // H_dbg: concrete source from params (ctx, b0, b1, b2 = window bytes or -1): prints the tokens.
 func H_dbg() {
 	src := openers[symx.Param("ctx", 0)]
